@@ -205,7 +205,12 @@ func c15r3(c *Ctx) {
 					skipAdd := reachAvoidingNode(g, body, head, addNode)
 					skipApp := reachAvoidingNode(g, body, head, appendNode)
 					modified := false
-					for n := range pathNodesBetween(g, addNode, appendNode) {
+					// (in either order, within one iteration)
+					between := pathNodesBetweenAvoiding(g, addNode, appendNode, head)
+					for n := range pathNodesBetweenAvoiding(g, appendNode, addNode, head) {
+						between[n] = true
+					}
+					for n := range between {
 						if n.AST != nil {
 							for _, w := range f.WritesIn(n.AST, false) {
 								if f.ObjOf(rootOfLvalue(w.LHS)) == elem {
